@@ -11,6 +11,7 @@ import (
 	"github.com/klev-dev/klevdb/pkg/index"
 	"github.com/klev-dev/klevdb/pkg/kdir"
 	"github.com/klev-dev/klevdb/pkg/message"
+	"github.com/klev-dev/klevdb/pkg/vhook"
 )
 
 type Segment struct {
@@ -181,10 +182,12 @@ func (s Segment) Recover(params index.Params) error {
 		if err := os.Rename(restore.Path, log.Path); err != nil {
 			return fmt.Errorf("restore log rename: %w", err)
 		}
+		vhook.FSEvent("rename", restore.Path, log.Path, 0, 0)
 	} else {
 		if err := os.Remove(restore.Path); err != nil {
 			return fmt.Errorf("restore log delete: %w", err)
 		}
+		vhook.FSEvent("remove", restore.Path, "", 0, 0)
 	}
 
 	var corruptedIndex = false
@@ -205,6 +208,7 @@ func (s Segment) Recover(params index.Params) error {
 		if err := os.Remove(s.Index); err != nil {
 			return fmt.Errorf("restore index delete: %w", err)
 		}
+		vhook.FSEvent("remove", s.Index, "", 0, 0)
 		if indexVersion != index.VUnknown {
 			if err := index.Write(s.Index, s.Offset, indexVersion, params, restoreIndex); err != nil {
 				return fmt.Errorf("restore index write: %w", err)
@@ -328,11 +332,15 @@ func (s Segment) Migrate(mversion message.Version, iversion index.Version, param
 	case errors.Is(err, os.ErrNotExist):
 	case err != nil:
 		return fmt.Errorf("migrate index remove: %w", err)
+	default:
+		vhook.FSEvent("remove", s.Index, "", 0, 0)
 	}
 
 	migratedPath := s.Log + ".migrate"
 	if err := os.Remove(migratedPath); err != nil && !errors.Is(err, os.ErrNotExist) {
 		return fmt.Errorf("migrate remove stale temp: %w", err)
+	} else if err == nil {
+		vhook.FSEvent("remove", migratedPath, "", 0, 0)
 	}
 	migratedLog, err := message.OpenWriter(migratedPath, s.Offset, mversion)
 	if err != nil {
@@ -373,6 +381,7 @@ func (s Segment) Migrate(mversion message.Version, iversion index.Version, param
 	if err := os.Rename(migratedLog.Path, s.Log); err != nil {
 		return fmt.Errorf("migrate log rename: %w", err)
 	}
+	vhook.FSEvent("rename", migratedLog.Path, s.Log, 0, 0)
 	if err := index.Write(s.Index, s.Offset, iversion, params, migratedIndex); err != nil {
 		return fmt.Errorf("migrate index write: %w", err)
 	}
@@ -388,10 +397,12 @@ func (olds Segment) Rename(news Segment) error {
 	if err := os.Rename(olds.Log, news.Log); err != nil {
 		return fmt.Errorf("rename log rename: %w", err)
 	}
+	vhook.FSEvent("rename", olds.Log, news.Log, 0, 0)
 
 	if err := os.Rename(olds.Index, news.Index); err != nil {
 		return fmt.Errorf("rename index rename: %w", err)
 	}
+	vhook.FSEvent("rename", olds.Index, news.Index, 0, 0)
 
 	if err := news.syncDir(); err != nil {
 		return fmt.Errorf("rename sync dir: %w", err)
@@ -405,14 +416,18 @@ func (olds Segment) Override(news Segment) error {
 	// (it might be missing already, it is rebuilt on demand)
 	if err := os.Remove(news.Index); err != nil && !errors.Is(err, os.ErrNotExist) {
 		return fmt.Errorf("override index delete: %w", err)
+	} else if err == nil {
+		vhook.FSEvent("remove", news.Index, "", 0, 0)
 	}
 
 	if err := os.Rename(olds.Log, news.Log); err != nil {
 		return fmt.Errorf("override log rename: %w", err)
 	}
+	vhook.FSEvent("rename", olds.Log, news.Log, 0, 0)
 	if err := os.Rename(olds.Index, news.Index); err != nil {
 		return fmt.Errorf("override index rename: %w", err)
 	}
+	vhook.FSEvent("rename", olds.Index, news.Index, 0, 0)
 
 	if err := news.syncDir(); err != nil {
 		return fmt.Errorf("override sync dir: %w", err)
@@ -425,10 +440,13 @@ func (s Segment) Remove() error {
 	// the index might be missing already, it is rebuilt on demand
 	if err := os.Remove(s.Index); err != nil && !errors.Is(err, os.ErrNotExist) {
 		return fmt.Errorf("remove index delete: %w", err)
+	} else if err == nil {
+		vhook.FSEvent("remove", s.Index, "", 0, 0)
 	}
 	if err := os.Remove(s.Log); err != nil {
 		return fmt.Errorf("remove log delete: %w", err)
 	}
+	vhook.FSEvent("remove", s.Log, "", 0, 0)
 	return nil
 }
 
